@@ -252,7 +252,7 @@ class C09(Lab):
         "struct payloads read back through the generic subscriber are decoded by hand (Rotation2d = one little-endian double)",
     )
     budgets = {"quick": 5000, "thorough": 200000}
-    time_budget = {"quick": 80, "thorough": 1500}
+    time_budget = {"quick": 240, "thorough": 3600}
 
     def setup(self):
         simenv.init()
